@@ -181,6 +181,59 @@ def extra_c14_bounded(prop, tier, seed):
     return res
 
 
+def witness_u1b(v, tier):
+    out, err = _replay(['u1b', 'find'])
+    if out and out.get('found'):
+        w = out['witness']
+        return {'found': True, 'witness': w, 'real': out['real'], 'tried': out['tried'],
+                'replay_args': ['u1b', 'replay', json.dumps(w)]}
+    return witness_u1(v, tier)
+
+
+def extra_c02_bounded(prop, tier, seed):
+    """Bounded stand-in (labelled, never counted): ~100 small data items x 4 alternative encoding styles
+    (wider heads, indefinite containers/strings, per-character chunks, other float widths) x 26 schemas:
+    decoded Value and verdict of the REAL code are identical to those of the minimal encoding."""
+    out, err = _replay(['u1b', 'find'])
+    if out is None:
+        raise engine.Undecided('replay-failed', err)
+    res = {'violations': [], 'bounded': [{'check': 'decoded Value and CBOR verdict are the same for alternative encodings of one data item',
+                                          'bound': '98 items x 4 styles x 26 schemas', 'comparisons': out.get('tried'), 'found': out.get('found')}]}
+    if out.get('found'):
+        res['violations'].append({
+            'unit': 'U1b', 'label': 'encoding-independence:same-item-same-verdict', 'fn': 'decode_cbor / validate_cbor_from_slice',
+            'message': 'two valid encodings of one data item are treated differently', 'clause': [], 'engine': 'replay',
+            'verifier_output': json.dumps(out),
+            'fixed_witness': {'found': True, 'witness': out['witness'], 'real': out.get('real'),
+                              'replay_args': ['u1b', 'replay', json.dumps(out['witness'])]}})
+    return res
+
+
+def extra_c12_bounded(prop, tier, seed):
+    """Bounded stand-in (the ONLY evidence for C12; labelled): every document of <= n rules over 3 names
+    (one of them a socket) x {type =, type /=, group =, group //=} through the real parser against an
+    oracle written from the property (rejected iff a name gets a plain `=` after any earlier definition;
+    error names the rule, at the later definition), plus 21 reference cases through CDDL::from_slice."""
+    n = '4' if tier == 'thorough' else '3'
+    out, err = _replay(['u4', 'find', n])
+    if out is None:
+        raise engine.Undecided('replay-failed', err)
+    res = {'violations': [], 'evaluations': out.get('tried') or 0,
+           'samples': [{'case': 'a = int / a = tstr  -> rejected, rule "a" already defined, at the second rule'},
+                       {'case': 'a /= int / a //= (k: int) / c-d = bool -> accepted, 3 rules'},
+                       {'case': 'a<t> = [t, u] via CDDL::from_slice -> rejected: missing definition for rule u'}],
+           'bounded': [{'check': 'duplicate definitions and undefined references, real parser entry points',
+                        'bound': '%s rules; 21 reference cases' % n, 'documents': out.get('tried'), 'found': out.get('found')}]}
+    if out.get('found'):
+        res['violations'].append({
+            'unit': 'U4', 'label': 'rules:duplicate-and-undefined-detection', 'fn': 'convert_cddl / find_first_undefined_reference',
+            'message': 'the parser disagrees with the property on a small document', 'clause': [], 'engine': 'replay',
+            'verifier_output': json.dumps(out),
+            'fixed_witness': {'found': True, 'witness': out['witness'], 'real': out.get('real'),
+                              'replay_args': ['u4', 'replay', json.dumps(out['witness'])]}})
+    return res
+
+
 def witness_u2(v, tier):
     out, err = _replay(['u2', 'find'])
     if out and out.get('found'):
@@ -413,6 +466,18 @@ def extra_c15_bounded(prop, tier, seed):
 
 
 PROPS = {
+    'C12': {
+        'extra': [extra_c12_bounded],
+        'level': 'exploration',
+        'engine': 'replay',
+        'technique': 'bounded stand-in only (no contract within reach): exhaustive small-document enumeration on the real parser against an oracle written from the property',
+        'level_text': 'NOT a proof. The duplicate-definition check is an inline loop of convert_cddl over HashMap<String,_> (entry API), rule.name() Strings and format!-built errors, the reference walker works on pest Pairs: Verus rejects all of it and Kani does not terminate on String/HashMap code, so no contract can be written. As the brief allows, a bounded check of these functions stands in, labelled bounded: every document of <= 3 rules (4 in the thorough tier) over 3 names x 4 rule forms must be accepted/rejected exactly as the property says, with the error naming the rule at the later definition; 21 fixed cases cover undefined references through CDDL::from_slice.',
+        'level_note': 'Bounded: documents of at most 3 (4) rules; generics / distance between definitions beyond that are not explored. Trusted: the oracle in replay/src/u4.rs.',
+        'design_ref': 'DESIGN.md 5 (C12)',
+        'scope': 'convert_cddl duplicate check and find_first_undefined_reference, via the public parser entry points',
+        'assumptions': [],
+        'rule': 'documents are enumerated exhaustively up to the bound (each distinct by construction); a case is non-trivial when it has >= 2 rules or a reference',
+    },
     'C14': {
         'vx': ['U8'],
         'extra': [extra_c14_bounded],
@@ -459,8 +524,8 @@ PROPS = {
     },
     'C02': {
         'vx': ['U1'],
-        'extra': [extra_c02_frame],
-        'witness': witness_u1,
+        'extra': [extra_c02_frame, extra_c02_bounded],
+        'witness': witness_u1b,
         'technique': 'lemma over the decoder contract (Verus, unit U1) + syntactic frame obligation on validate_cbor_from_slice',
         'level_text': 'Second sentence of C02 only (the verdict cannot depend on the encoding): U1 proves that decode_cbor returns a Value that represents the data-model Item of the input - an abstraction that by construction carries no head width, definite/indefinite framing, chunking or float width - and a token-level frame obligation shows the encoded bytes flow only into decode_cbor in every variant of validate_cbor_from_slice, so the validator is a function of that Value alone. The first sentence (verdict = RFC 8610 semantics) is not decided: the CBOR validator is outside both verifiers reach.',
         'level_note': 'Trusted: everything listed for C11. The step "two Values representing the same Item are indistinguishable to the validator" relies on Value equality being by content (Integer by value, Text/Bytes by bytes, floats by f64 value), which is how the type is defined; the validator itself is not under contract.',
@@ -542,5 +607,4 @@ PROPS = {
 
 # properties whose check is not built yet (kept in MANIFEST.not_applicable until it is)
 PENDING = {
-    'C12': 'check not built yet: stretch unit U4',
 }
